@@ -207,6 +207,9 @@ def pyparam(v: Any, fam: str) -> Any:
 _state: dict[str, Any] = {}
 
 
+NAMESAKES = ["DF", "DATA", "FRAME", "ROWS"]
+
+
 def setup_worker(env: core.Env) -> None:
     fs = core.new_fs()
     saved = snowflake.connector.paramstyle
@@ -219,6 +222,10 @@ def setup_worker(env: core.Env) -> None:
     cur = conn.cursor()
     cur.execute("CREATE TABLE BYSTANDER (ID INT, S VARCHAR)")
     cur.execute("INSERT INTO BYSTANDER VALUES (1, 'keep'), (2, NULL)")
+    # tables that carry the names a loader's own Python variables tend to have: what is loaded is the frame handed over
+    for nm in NAMESAKES:
+        cur.execute(f"CREATE TABLE {nm} (ID INT, V VARCHAR, EXTRA VARCHAR)")
+        cur.execute(f"INSERT INTO {nm} VALUES (-7, NULL, 'namesake of a variable')")
     _state.update(fs=fs, conn=conn, qconn=qconn, raw=core.raw_root(fs).cursor())
 
 
@@ -518,6 +525,10 @@ def run_case(case: dict, env: core.Env) -> None:
         b = raw.execute("select ID, S from DB1.S1.BYSTANDER order by ID").fetchall()
         if b != [(1, "keep"), (2, None)]:
             env.witness(f"C01/bystander-changed/{cell}", str(b))
+        for nm in NAMESAKES:
+            b = raw.execute(f"select ID, V, EXTRA from DB1.S1.{nm}").fetchall()
+            if b != [(-7, None, "namesake of a variable")]:
+                env.witness(f"C01/bystander-changed/{cell}", f"{nm}: {b}")
         if any(v is not None for _, v in rows):
             env.nontrivial((spell, path, repr(vals)))
     finally:
